@@ -21,7 +21,7 @@ from common import rng_for, close, frac
 from fractions import Fraction
 
 RULE = ("option sets from VERIF_SEED: -a -b -e in {.5,1,2,3}, -p in {.5,.9}, -n in 2..4, -d in {absolute, numerical, levenshtein}, -m, -c, -k, --seed, "
-        "-s in {',', ';'}, output mode in {print, -o, -j}, 1 or 2 input files (csv; rttm) with 2..3 annotators x 3..5 units and numeric or word labels; "
+        "-s in {',', ';'}, output mode in {print, -o, -j}, 1..3 input files (csv; rttm) whose label sets are subsets of one another with 2..3 annotators x 3..5 units and numeric or word labels; "
         "non-trivial = a non-default -d, -a/-b/-e different from 1, or -m; distinct by (files, options)")
 TRUSTED_BASE = ["Coq 8.16.1 kernel (props/C20.v over the regenerated table)", "harness/gen_tables.py (AST translator, fail-closed)", "harness/{common,gen,c20}.py",
                 "argparse itself; the number formatting / parsing of print, csv and json"]
@@ -151,13 +151,23 @@ def run(rep, tier, seed, pa):
              "n": rng.choice([2, 3, 4]), "d": rng.choice(["absolute", "numerical", "levenshtein"]), "m": rng.random() < 0.4, "c": rng.random() < 0.6,
              "k": rng.random() < 0.5, "seed": rng.choice([None, 4772, rng.randrange(10 ** 6)]), "sep": rng.choice([",", ",", ";"]),
              "fmt": rng.choice(["csv", "csv", "rttm"]), "out": rng.choice(["print", "csv", "json"])}
+        targeted = si % 4 == 3
+        if targeted:     # several files with nested numeric category sets of different spreads: each file must get ITS OWN categorical dissimilarity
+            o.update({"d": "numerical", "fmt": "csv", "b": rng.choice([1, 2, 3])})
         if o["seed"] is None:
             o["seed"] = rng.randrange(10 ** 6)      # unseeded runs cannot be compared; the option itself is covered by the wiring theorem
         labels = ["1", "2", "3.5", "10"] if o["d"] == "numerical" else gen.LABEL_SETS[rng.choice(["abc", "words"])]
         if o["fmt"] == "rttm":
             labels = [l for l in labels if " " not in l]
         with tempfile.TemporaryDirectory(prefix="pgaverif_") as dd:
-            files = [write_input(rng, dd, k, o["fmt"], labels, o["sep"]) for k in range(rng.choice([1, 2]))]
+            # each file draws its labels from its own subset (files of one invocation may have nested / different category sets)
+            nfiles = rng.choice([1, 2, 2, 3])
+            subsets = [labels] + [sorted(rng.sample(labels, rng.randrange(2, len(labels) + 1))) for _ in range(nfiles - 1)]
+            rng.shuffle(subsets)
+            if targeted:
+                nfiles = rng.choice([2, 3])
+                subsets = [["1", "2", "3.5", "10"], ["1", "2", "3.5"], ["1", "2"]][:nfiles]
+            files = [write_input(rng, dd, k, o["fmt"], subsets[k], o["sep"]) for k in range(nfiles)]
             argv = [str(f) for f in files] + ["-a", str(o["a"]), "-b", str(o["b"]), "-e", str(o["e"]), "-p", str(o["p"]), "-n", str(o["n"]),
                                              "-d", o["d"], "--seed", str(o["seed"]), "-s", o["sep"], "-f", o["fmt"]]
             for flag, key in (("-m", "m"), ("-c", "c"), ("-k", "k")):
